@@ -10,6 +10,7 @@ import (
 	"context"
 	"fmt"
 	"sync"
+	"sync/atomic"
 	"testing"
 	"time"
 
@@ -24,6 +25,7 @@ type c16case struct {
 	LateFraction float64 `json:"late_result_at_fraction_of_delay"`
 	LateResults  int     `json:"late_results"`
 	ErrEveryMs   int     `json:"engine_keeps_reporting_an_error_every_ms,omitempty"` // after completion, until the scan is cancelled
+	SlowOutMs    int     `json:"output_write_takes_ms,omitempty"`                     // a slow consumer: records are still being written when the delay ends
 }
 
 // fakeEngine: completion and results fully scripted.
@@ -87,7 +89,7 @@ func c16run(run *vlab.Run, c c16case) {
 	ctx, cancel := context.WithCancel(context.Background())
 	defer cancel()
 	clock := &rigClock{}
-	out := &recOut{clock: clock}
+	out := &recOut{clock: clock, delay: time.Duration(c.SlowOutMs) * time.Millisecond}
 	real, err := log.NewLogger(out, "rig", log.JSON())
 	if err != nil {
 		panic(err)
@@ -98,8 +100,10 @@ func c16run(run *vlab.Run, c c16case) {
 	conf := newEngineConfig(withLogger(&recLogger{inner: real, clock: clock}), withScanRange(&scan.Range{}), withExitDelay(delay))
 	health := startHealth()
 	var retT time.Time
+	var inflightAtReturn int32
 	dump, finished, parked := run.Watch(delay+30*time.Second, "v-byte-cpu/sx/", func() {
 		_ = startScanEngine(ctx, eng, conf)
+		inflightAtReturn = atomic.LoadInt32(&out.inflight)
 		retT = time.Now()
 	})
 	stall := health.end()
@@ -110,6 +114,20 @@ func c16run(run *vlab.Run, c c16case) {
 		} else {
 			run.Inconclusive(fmt.Sprintf("still running: %+v", c))
 		}
+		return
+	}
+	if inflightAtReturn != 0 {
+		run.Violation("returned-while-a-record-was-being-written", fmt.Sprintf("startScanEngine returned while %d write(s) of a record to the output were still in progress: the process exits next and leaves that record cut short: %+v", inflightAtReturn, c), c)
+	}
+	if c.SlowOutMs > 0 {
+		run.Count("returns_checked_against_writes_in_progress", 1)
+		// with a slow consumer only what was written is judged (complete lines), not how much of the backlog made it
+		for _, w := range out.snapshot() {
+			if len(w) == 0 || w[len(w)-1] != '\n' {
+				run.Violation("incomplete-record", fmt.Sprintf("output write is not a complete line: %q: %+v", truncate(w, 100), c), c)
+			}
+		}
+		run.Count("delays_checked", 1)
 		return
 	}
 	eng.mu.Lock()
@@ -175,6 +193,13 @@ func TestVerifC16(t *testing.T) {
 					cases = append(cases, c16case{DelayMs: d, DoneAfterMs: after, LateFraction: 0.1, LateResults: 50})
 				}
 			}
+		}
+	}
+	// records that are still being written to a slow consumer when the delay ends: 40 results arrive at 60 % of the
+	// delay, every write takes delay/10: the delay expires in the middle of a write
+	for r := 0; r < reps; r++ {
+		for _, d := range []int{50, 100, 300} {
+			cases = append(cases, c16case{DelayMs: d, LateFraction: 0.6, LateResults: 40, SlowOutMs: d/10 + r%3})
 		}
 	}
 	for i, c := range cases {
